@@ -72,6 +72,8 @@ pub enum Event {
     StartMixed(Box<Cmd>),
     /// shell event: `update` aborts the command registered under this handle
     Cancel(u32),
+    /// shell event that only carries bulk (a large message over the bridge); a no-op for the app
+    Pad(Vec<u8>),
 }
 
 impl Event {
@@ -284,7 +286,7 @@ fn apply<Ef: LabEffect>(
             crate::build::start_legacy(&c, caps);
             Command::done()
         }
-        Event::Noop => Command::done(),
+        Event::Noop | Event::Pad(_) => Command::done(),
         Event::Cancel(h) => {
             call_abort(h);
             Command::done()
